@@ -292,6 +292,8 @@ pub async fn run(out: &mut Out) {
             ("tls-key-without-pem", base("", direct, &format!("  - name: tls\n    type: http\n    bind: 127.0.0.1:{}\n    tls:\n      cert: {}/server.crt\n      key: {}/empty.crt\n", p(), PKI, PKI), p()), false),
             ("rule-filter-tuple-index", format!("{}  - target: out\n    filter: \"(1,2).5 == 1\"\n", base("", direct, "", p())), false),
             ("rule-filter-min-mod", format!("{}", base("", direct, "", p()).replace("rules:\n", "rules:\n  - target: deny\n    filter: \"(0 - 9223372036854775807 - 1) % (0 - 1) == 0\"\n  - target: deny\n    filter: \"1 / (request.target.port - request.target.port) == 0\"\n")), true),
+            // empty collections (legal YAML, legal values): nothing to route, nothing to crash on
+            ("empty-rule-list", base("", direct, "", p()).replace("rules:\n  - target: out\n", "rules: []\n"), true),
             // legal boundary values of numeric options that reach the data path only with the first relayed request
             ("timeouts-idle-zero", base("timeouts:\n  idle: 0\n", direct, "", p()), true),
             ("timeouts-both-zero", base("timeouts:\n  idle: 0\n  udp: 0\n", direct, "", p()), true),
@@ -336,7 +338,9 @@ pub async fn run(out: &mut Out) {
                 }
                 let alive = matches!(child.try_wait(), Ok(None));
                 imp = format!("accepted up={} served={} alive={}", up as u8, served, alive as u8);
-                if !alive || served != 3 {
+                // a configuration without rules routes nothing: every request is refused, the process keeps running
+                let want_served = if what.starts_with("empty-rule") { 0 } else { 3 };
+                if !alive || served != want_served {
                     out.oracle_fail("accepted-config-crashes", &format!("{}: accepted by --test, then served {} of 3 requests, process alive = {}", what, served, alive));
                 }
                 let _ = child.kill().await;
